@@ -12,6 +12,17 @@ CLAIMED = {
    note='Trusted: Verus+Z3, vstd specs of Vec/HashMap, the UnsafeCell wrappers Partition/IntPartition (one-line delegations, unsafe), '
         'termination (not claimed), rustc ownership semantics for clone independence.',
    ref='5 C20', technique=TECH),
+ 'C10': dict(
+   text='Unbounded proof (Verus/Z3) over the real bodies of src/fpgroups/free_words.rs: the reduced-word type invariant is re-established by every '
+        'constructor and operation (new, empty, inverse, raised_to, commutator, rotated, all six * forms, *=), each result equals the '
+        'free reduction of the concatenation / inverse / power, cmp is the verified lexicographic order with proved strict-total-order '
+        'lemmas, relator_representative is the least candidate and relator_permutations is exactly the candidate set; group axioms are '
+        'lemmas over the same spec function.',
+   note='Trusted: Verus+Z3, vstd; std semantics of three iterator expressions vstd does not model (chain/cloned/collect in mul, '
+        'empty().chain(skip).chain(take).cloned() in rotated, (0..m).fold in raised_to) stated as external_body contracts; '
+        'isize::rem_euclid, Option::is_some_and, BTreeSet::from specs; vstd closed law obeys_cmp::<FreeWord>() assumed (its content is proved as lemmas); '
+        'derived Clone/PartialEq; Vec length <= isize::MAX/8; letters > isize::MIN is a stated precondition; From<I> and iter() not under contract; termination.',
+   ref='5 C10', technique=TECH),
 }
 
 NA = {
